@@ -185,6 +185,13 @@ def check_case(ctx, case, collected=None):
         if k in ("fn", "kl", "md", "ident", "add", "kw", "tag", "first", "len", "sum", "sorted", "all", "any", "str", "Node"):
             fail("(6)unrepresentable-listed", "%r (a function/class/module) is listed" % k)
             return
+    import re as _re
+
+    for k, v in parsed["entries"]:
+        txt = v if isinstance(v, str) else " ".join(t for _, t in v[1])
+        if _re.match(r"^<(function|class|module|built-in (function|method)|bound method|method) ", txt) or _re.match(r"^<class '", txt):
+            fail("(6)unrepresentable-value", "the line for %r shows a function / class / module: %s" % (k, txt[:80]))
+            return
     # (5) every rendering through the contract's a_repr: reuse the CPython oracle of C06
     value, nodes, rec = OR.record(built["ctext"], dict(built["b"], **extra_bindings(case, named, built)), list(built["b"]) + named)
     c06.AREPR = make_arepr(case.get("limits"))
@@ -367,6 +374,13 @@ DIRECTED = [
     ("len(ss) < 0", {"ss": [5, 3, 1, 9, 7, 11, 2]}, {"maxset": 3}),
     ("len(zs) < 0", {"zs": ["ab", "zz", "ca", "b", "x"]}, None),
     ("o.n > 1000", {}, {"maxother": 12}),
+    # classes / functions that are the VALUE of a call, a subscript or a loop variable (not of a name) are left out as well
+    ("type(x) == str", {}, None),
+    ("ident(fn) is None", {}, None),
+    ("[ident, add][0] is None", {}, None),
+    ("{'k': kl}['k'] is None", {}, None),
+    ("all(g is None for g in [ident, add])", {}, None),
+    ("x.__class__ is str", {}, None),
 ]
 
 
